@@ -1,0 +1,148 @@
+//go:build verif
+
+package zenodb
+
+// Verification hooks (build tag "verif"): an event sink with optional
+// deterministic crash points, and read-only accessors used by the external
+// verification harness. None of this changes behaviour, except exiting the
+// process at a requested crash point.
+
+import (
+	"context"
+	"fmt"
+	"os"
+	"strconv"
+	"strings"
+	"sync"
+	"sync/atomic"
+
+	"github.com/getlantern/bytemap"
+	"github.com/getlantern/zenodb/core"
+	"github.com/getlantern/zenodb/encoding"
+)
+
+var (
+	verifMx        sync.Mutex
+	verifSink      func(name string, table string, args []interface{})
+	verifCrashName string
+	verifCrashN    int64
+	verifCrashHits int64
+	verifProcessed sync.Map // table name -> *int64
+	verifLogFile   *os.File
+)
+
+func init() {
+	// ZVH_CRASH=<event>:<n> exits the process (code 137) at the n-th occurrence of <event>
+	if spec := os.Getenv("ZVH_CRASH"); spec != "" {
+		parts := strings.SplitN(spec, ":", 2)
+		verifCrashName = parts[0]
+		verifCrashN = 1
+		if len(parts) == 2 {
+			if n, err := strconv.ParseInt(parts[1], 10, 64); err == nil {
+				verifCrashN = n
+			}
+		}
+	}
+	// ZVH_EVENTLOG=<file> appends one line per event, flushed per line
+	if path := os.Getenv("ZVH_EVENTLOG"); path != "" {
+		f, err := os.OpenFile(path, os.O_CREATE|os.O_APPEND|os.O_WRONLY, 0644)
+		if err == nil {
+			verifLogFile = f
+		}
+	}
+}
+
+// VerifSetSink installs an in-process event sink.
+func VerifSetSink(sink func(name string, table string, args []interface{})) {
+	verifMx.Lock()
+	verifSink = sink
+	verifMx.Unlock()
+}
+
+func verifEvent(name string, table string, args ...interface{}) {
+	if name == "insert.processed" {
+		c, _ := verifProcessed.LoadOrStore(table, new(int64))
+		atomic.AddInt64(c.(*int64), 1)
+	}
+	verifMx.Lock()
+	sink := verifSink
+	if verifLogFile != nil {
+		fmt.Fprintf(verifLogFile, "%s %s %s\n", name, table, fmt.Sprint(args...))
+	}
+	verifMx.Unlock()
+	if sink != nil {
+		sink(name, table, args)
+	}
+	if verifCrashName != "" && name == verifCrashName {
+		if atomic.AddInt64(&verifCrashHits, 1) == verifCrashN {
+			if verifLogFile != nil {
+				fmt.Fprintf(verifLogFile, "crash %s %d\n", name, verifCrashN)
+				verifLogFile.Sync()
+			}
+			os.Exit(137)
+		}
+	}
+}
+
+// VerifProcessed returns how many WAL entries the named table has processed
+// (inserted or skipped) since this process started.
+func (db *DB) VerifProcessed(table string) int64 {
+	c, ok := verifProcessed.Load(strings.ToLower(table))
+	if !ok {
+		return 0
+	}
+	return atomic.LoadInt64(c.(*int64))
+}
+
+// VerifResetProcessed clears the processed counters (between harness cases).
+func VerifResetProcessed() {
+	verifProcessed.Range(func(k, v interface{}) bool {
+		verifProcessed.Delete(k)
+		return true
+	})
+}
+
+// VerifFields returns the current fields of the named table.
+func (db *DB) VerifFields(table string) core.Fields {
+	t := db.getTable(table)
+	if t == nil {
+		return nil
+	}
+	return t.getFields()
+}
+
+// VerifIterate scans the named table through the normal (coalescing) iteration
+// path and hands out copies of each row's key and per-field sequences.
+func (db *DB) VerifIterate(ctx context.Context, table string, outFields core.Fields, includeMemStore bool, onRow func(key bytemap.ByteMap, vals []encoding.Sequence) (bool, error)) error {
+	t := db.getTable(table)
+	if t == nil {
+		return fmt.Errorf("table %v not found", table)
+	}
+	_, err := t.iterate(ctx, outFields, includeMemStore, func(key bytemap.ByteMap, vals []encoding.Sequence) (bool, error) {
+		k := make(bytemap.ByteMap, len(key))
+		copy(k, key)
+		vs := make([]encoding.Sequence, len(vals))
+		for i, v := range vals {
+			if v != nil {
+				vs[i] = make(encoding.Sequence, len(v))
+				copy(vs[i], v)
+			}
+		}
+		return onRow(k, vs)
+	})
+	return err
+}
+
+// VerifNow returns the database clock.
+func (db *DB) VerifNow() int64 {
+	return db.clock.Now().UnixNano()
+}
+
+// VerifFlushCount returns the number of flushes started on the named table.
+func (db *DB) VerifFlushCount(table string) int {
+	t := db.getTable(table)
+	if t == nil || t.rowStore == nil {
+		return -1
+	}
+	return t.rowStore.flushCount
+}
